@@ -55,6 +55,7 @@ from vf.rt.harness import oracle, Bounded
 INT_LABELS = [5, 2, 9, 0, 7]                        # sorted order != order of first appearance
 STR_LABELS = ['s2', 'S10', 'subj-b', 'a', 's10']    # different lengths, upper / lower case
 MAX_LEAVES = 400000
+MAX_FAILS = 25          # per case: stop enumerating after that many failing outcomes (the count is then a lower bound)
 
 
 # ---- scripted replacement of np.random.randint ---------------------------------------------------------------------
@@ -173,7 +174,7 @@ def _check_idx(idx, labels, what):
     if not isinstance(idx, np.ndarray) or idx.ndim != 1:
         return f'{what}: returned indices are not a 1-d index array: {idx!r}'
     if len(idx) != len(groups):
-        return f'{what}: {len(idx)} groups drawn {list(idx)} but there are {len(groups)} distinct groups {groups}'
+        return f'{what}: {len(idx)} groups drawn {_fmt(idx)} but there are {len(groups)} distinct groups {groups}'
     for v in idx:
         if not any(v == g for g in groups):
             return f'{what}: drawn value {v!r} is not a group value ({groups})'
@@ -259,6 +260,9 @@ def _check_pred_order(sample, pred_s, base):
     pv = np.asarray(pred_s.get_vectors())
     if pred_s.n_cond != m or pv.shape[1] != m * (m - 1) // 2:
         return f'resampled prediction has {pred_s.n_cond} conditions, the sample {m}'
+    pcid = [int(x) for x in pred_s.pattern_descriptors['cid']]
+    if pcid != cid:
+        return f'resampled prediction holds the source conditions {pcid}, the sample holds {cid} (order differs)'
     k = 0
     for a in range(m):
         for b in range(a + 1, m):
@@ -312,11 +316,16 @@ class _Tally:
         return None
 
 
-def _summary(n_leaves, fails, extra=None):
+def _summary(n_leaves, fails, what='outcomes of the draws'):
     if fails:
         script, msg = fails[0]
-        return f'{len(fails)} of {n_leaves} outcomes of the draws fail; first: draws {script}: {msg}'
-    return extra
+        n = f'the first {n_leaves}' if len(fails) >= MAX_FAILS else str(n_leaves)
+        return f'{len(fails)} of {n} {what} fail; first: {_fmt(script)}: {msg}'
+    return None
+
+
+def _fmt(idx):
+    return None if idx is None else np.asarray(idx).tolist()
 
 
 def _prediction(case):
@@ -370,14 +379,16 @@ def _run_draws(case, fn_name):
             conds = _members(plab, P) if do_p else list(range(src['n_cond']))
             msg = _check_sample(src, sample, rows, conds)
             if msg is not None:
-                msg = f'drawn {[] if R is None else list(R)} / {[] if P is None else list(P)}: ' + msg
+                msg = f'rdm_idx {_fmt(R)}, pattern_idx {_fmt(P)}: ' + msg
         if msg is None and do_p:
             pred_s = pred.subsample_pattern(pby, P)
-            msg = _check_sample(psrc, pred_s, [0], conds) or _check_pred_order(sample, pred_s, psrc['base'])
+            msg = _check_pred_order(sample, pred_s, psrc['base'])
             if msg is not None:
-                msg = f'prediction resampled with pattern_idx {list(P)}: ' + msg
+                msg = f'prediction resampled with pattern_idx {_fmt(P)}: ' + msg
         if msg is not None:
             fails.append((script, msg))
+            if len(fails) >= MAX_FAILS:
+                break
             continue
         if do_r:
             tr.add(R, w)
@@ -454,7 +465,9 @@ def orc_subsample(case):
         msg = _check_sample(src, sample, _members(lab, vec), list(range(src['n_cond'])))
         if msg:
             fails.append((vec, msg))
-    return _summary(n, fails)
+            if len(fails) >= MAX_FAILS:
+                break
+    return _summary(n, fails, 'value vectors')
 
 
 @oracle('C09/subsample-pattern')
@@ -476,12 +489,14 @@ def orc_subsample_pattern(case):
         msg = _check_sample(src, sample, list(range(src['n_rdm'])), conds)
         if msg is None:
             pred_s = pred.subsample_pattern(None if case.get('by_none') else by, value)
-            msg = _check_sample(psrc, pred_s, [0], conds) or _check_pred_order(sample, pred_s, psrc['base'])
+            msg = _check_pred_order(sample, pred_s, psrc['base'])
             if msg:
                 msg = 'prediction resampled with the same values: ' + msg
         if msg:
             fails.append((vec, msg))
-    return _summary(n, fails)
+            if len(fails) >= MAX_FAILS:
+                break
+    return _summary(n, fails, 'value vectors')
 
 
 @oracle('C09/frequency-smoke')
@@ -578,13 +593,12 @@ def tier_c(run, thorough):
     # ---- bootstrap_sample_pattern -------------------------------------------------------------------------------------
     # (n_rdm, label kind, container) combinations per n_cond
     full = [(r, k, c) for r in (1, 2, 3, 4) for (k, c) in KINDS]
-    five = full if thorough else [(1, 'int', 'list'), (2, 'str', 'array'), (3, 'int', 'array')]
+    five = full if thorough else [(1, 'int', 'list'), (3, 'str', 'array')]
     bd = Bounded(run, 'C09/pattern-draws', 'C09/bootstrap_sample_pattern/oracle/faithful-group-resample',
                  'ALL outcomes of the draws (np.random.randint scripted, incl. every group drawn 3, 4, 5 times) for ALL groupings '
                  '(set partitions) of n_cond 2..5 conditions; n_rdm 1..4 x int / str group labels x list / array descriptors'
                  '%s; default index descriptor; prediction = RDMs / ModelFixed.predict_rdm'
-                 % ('' if thorough else ' for n_cond <= 4, for n_cond = 5 the combinations (1, int, list), (2, str, array), '
-                                        '(3, int, array)'),
+                 % ('' if thorough else ' for n_cond <= 4, for n_cond = 5 the combinations (1, int, list), (3, str, array)'),
                  exhaustive=True, function='bootstrap_sample_pattern')
     for n_cond in range(2, 6):
         combos = five if n_cond == 5 else full
@@ -603,11 +617,13 @@ def tier_c(run, thorough):
     # ---- bootstrap_sample (joint) ---------------------------------------------------------------------------------------
     both = [KINDS[0], KINDS[3]]
     if thorough:
-        shapes = [(r, c, both) for r in range(1, 5) for c in range(2, 5)] + [(r, 5, KINDS[0:1]) for r in (1, 2, 3)]
-        dom = 'n_rdm 1..4 x n_cond 2..4 (int labels / list and str labels / array), n_rdm 1..3 x n_cond 5 (int labels / list)'
+        shapes = [(r, c, both if (r, c) != (4, 4) else KINDS[0:1]) for r in range(1, 5) for c in range(2, 5)]
+        shapes += [(r, 5, KINDS[0:1]) for r in (1, 2)]
+        dom = ('n_rdm 1..4 x n_cond 2..4 (int labels / list; except for 4 x 4 also str labels / array), '
+               'n_rdm 1..2 x n_cond 5 (int labels / list)')
     else:
-        shapes = [(r, c, both if c <= 3 else KINDS[0:1]) for r in range(1, 4) for c in range(2, 5)]
-        dom = 'n_rdm 1..3 x n_cond 2..4 (int labels / list; for n_cond <= 3 also str labels / array)'
+        shapes = [(r, c, both) for r in range(1, 4) for c in range(2, 4)] + [(r, 4, KINDS[0:1]) for r in (1, 2, 3)]
+        dom = 'n_rdm 1..3 x n_cond 2..3 (int labels / list and str labels / array), n_rdm 1..3 x n_cond 4 (int labels / list)'
     bd = Bounded(run, 'C09/joint-draws', 'C09/bootstrap_sample/oracle/faithful-group-resample',
                  'ALL joint outcomes of the RDM and condition draws for ALL pairs of groupings (set partitions), %s; '
                  'default index descriptors' % dom, exhaustive=True, function='bootstrap_sample')
@@ -651,21 +667,28 @@ def tier_c(run, thorough):
     bd.done()
     bds.append(bd)
 
+    if thorough:
+        dom = ('1..max(4, #groups)', '{1, 3}', ' (n_cond = 5: tuple values only with int labels / list descriptor, n_rdm = 3 only '
+               'with int / list and str / array)')
+    else:
+        dom = ('1..3 (int labels / list descriptor / array value: 1..max(3, #groups))', '{2}',
+               ' (n_cond >= 4: only int / list and str / array)')
     bd = Bounded(run, 'C09/subsample-pattern', 'C09/RDMs.subsample_pattern/oracle/faithful-group-resample',
                  'ALL vectors of group values (selecting >= 2 conditions) of length %s, passed as list / tuple / array, every '
                  'single value as python / numpy scalar; ALL groupings (set partitions) of n_cond 2..5, n_rdm in %s; int / str '
-                 'labels in list / array descriptors; by = None on the index'
-                 % (('1..max(4, #groups)', '{1, 3}') if thorough else
-                    ('1..3 (int labels / list descriptor / array value: 1..max(3, #groups))', '{2}')),
+                 'labels in list / array descriptors%s; by = None on the index' % dom,
                  exhaustive=True, function='RDMs.subsample_pattern')
     for n_cond in range(2, 6):
         for n_rdm in ((1, 3) if thorough else (2,)):
             for rgs in _partitions(n_cond):
                 g = len(set(rgs))
-                for kind, cont in KINDS:
+                for kind, cont in (KINDS if thorough or n_cond <= 3 else both):
                     base = dict(n_rdm=n_rdm, n_cond=n_cond, rg=None, pg=_label(rgs, kind), container=cont,
                                 pred='model' if kind == 'int' else 'rdms')
                     for vt in VT:
+                        if thorough and n_cond == 5 and ((vt == 'tuple' and (kind, cont) != ('int', 'list'))
+                                                         or (n_rdm == 3 and (kind, cont) not in both)):
+                            continue
                         if thorough:
                             top = max(4, g)
                         else:
